@@ -97,6 +97,7 @@ def body_asm_side(env):
         c.coolant_gap_params['htc'] = np.array([3.0e4 + 137.0 * i for i in range(n)])
         env.stub('film coefficients concrete (distinct per gap cell) so that the tolerance query is linear in the temperatures')
         rec = {}
+        rec0 = {}
         asms = []
         Ts = []
         for a, asm in enumerate(r.assemblies):
@@ -111,7 +112,10 @@ def body_asm_side(env):
 
             def calc(dz_, gap_temp, gap_htc, adiabatic=False, ebal=False, _a=a):
                 rec[_a] = (gap_temp, gap_htc)
-            asms.append(StubSelf(duct_outer_surf_temp=ts, active_region=StubSelf(_map=reg._map), calculate=calc,
+
+            def step0(gap_temp, gap_htc, adiabatic=False, _a=a):
+                rec0[_a] = (gap_temp, gap_htc)
+            asms.append(StubSelf(duct_outer_surf_temp=ts, active_region=StubSelf(_map=reg._map), calculate=calc, step0=step0,
                                  check_region_update=lambda z: False, write=lambda *x, **k: None))
         r2 = copy.copy(r)
         r2.core = c
@@ -121,7 +125,14 @@ def body_asm_side(env):
         r2._options['dump'] = dict(r._options['dump'], any=False)
         r2._options['ebal'] = True
         r2.z = np.array([0.0, 1.0, 2.0])
+        rm.Reactor.axial_step0(r2)            # duct temperatures before the sweep: same hand-over of the gap state
         rm.Reactor.axial_step(r2, 1.0, 1.0, 0)
+        for a in rec:
+            for k in range(len(rec[a][0])):
+                env.eq('assembly %d cell %d: axial_step0 hands over the same gap temperature as the first step' % (a, k), rec0[a][0][k], rec[a][0][k],
+                       tol=1e-12, key='step0_handover_differs')
+                env.eq('assembly %d cell %d: axial_step0 hands over the same gap film coefficient as the first step' % (a, k), rec0[a][1][k], rec[a][1][k],
+                       tol=1e-12, key='step0_handover_differs')
         adj = r.core._asm_sc_adj
         for a, asm in enumerate(r.assemblies):
             reg = asm.active_region
@@ -200,6 +211,48 @@ def body_outer_surface(env):
                    key='wrong_duct_surface_offered_to_gap')
 
 
+def body_update_region(env):
+    """Assembly.update_region (region change during the sweep): the new region is activated with the gap film coefficient
+    and the film-weighted gap temperature mapped by the *new* region's own gap->duct map; with the adiabatic option the gap
+    plays no role."""
+    import dassh.assembly as am
+    adiabatic = env.params['adiabatic']
+    with env.patch(MODS + [am]):
+        ng = 4
+        tg = np.empty(ng, dtype=object)
+        hg = np.empty(ng, dtype=object)
+        for i in range(ng):
+            tg[i] = env.real('Tgap%d' % i, lo=200, hi=3000)
+            hg[i] = env.pos('hgap%d' % i, hi=1e7)
+        if env.mode == 'replay':
+            tg, hg = tg.astype(float), hg.astype(float)
+        m_old = np.array([[0.5, 0.5, 0.0, 0.0], [0.0, 0.0, 0.5, 0.5]])
+        m_new = np.array([[0.75, 0.25, 0.0, 0.0], [0.0, 0.5, 0.5, 0.0], [0.0, 0.0, 0.125, 0.875]])
+        got = {}
+
+        def act(prev, t, h, ad):
+            got['args'] = (prev, t, h, ad)
+        regs = [StubSelf(_map={'gap2duct': m_old}, pressure_drop=0.0), StubSelf(_map={'gap2duct': m_new}, pressure_drop=0.0, activate=act)]
+        from harness.c14_pdrop import _Asm
+        a = _Asm(_bind=(am.Assembly, ['update_region', '_identify_active_region']), _pressure_drop=0.0, region=regs, _active_region_idx=0,
+                 region_bnd=[0.0, 1.0, 2.0], duct_outer_surf_temp=np.zeros(3))
+        a.update_region(1.25, tg, hg, adiabatic=adiabatic)
+        env.holds('the new region is activated with the old region as its predecessor', got.get('args') is not None and got['args'][0] is regs[0]
+                  and got['args'][3] is adiabatic)
+        if got.get('args') is None:
+            env.stop()
+        _p, t, h, _ad = got['args']
+        if adiabatic:
+            env.holds('adiabatic: dummy gap values of the right length', len(t) == 3 and len(h) == 3)
+            return
+        for c in range(3):
+            hw = _sum(m_new[c, f] * hg[f] for f in range(ng))
+            tw = _sum(m_new[c, f] * hg[f] * tg[f] for f in range(ng))
+            env.eq('cell %d: film coefficient mapped with the new region\'s own map' % c, h[c], hw, tol=1e-10, key='region_change_gap_mapping')
+            env.eq('cell %d: gap temperature = film-weighted mean over the new region\'s own map' % c, t[c] * hw, tw, tol=1e-10,
+                   key='region_change_gap_mapping')
+
+
 def instances(tier):
     inst = []
     lays = ['one-a2', 'two-a2-a3', 'three-a2-a3-ur', 'three-a3-dd-u6', 'ring-no-centre'] + \
@@ -208,6 +261,8 @@ def instances(tier):
         inst.append(dict(label='gap-step[%s]' % l, body=body_gap, params={'layout': l}, timeout_ms=240000))
         inst.append(dict(label='assembly-side[%s]' % l, body=body_asm_side, params={'layout': l}, timeout_ms=240000))
     inst.append(dict(label='adiabatic[one-a2]', body=body_adiabatic, params={'layout': 'one-a2'}))
+    for ad in (False, True):
+        inst.append(dict(label='region-change[adiabatic=%s]' % ad, body=body_update_region, params={'adiabatic': ad}))
     for nduct in (1, 2, 3):
         inst.append(dict(label='outer-surface[ducts=%d]' % nduct, body=body_outer_surface, params={'n_duct': nduct}))
     return inst
